@@ -44,6 +44,7 @@ pub fn families() -> Vec<&'static dyn Family> {
         &nsim::hostile_server::HOSTILE_SERVER,
         &nsim::chaos::CHAOS,
         &nsim::regrace::REG_RACE,
+        &nsim::rrbulk::BULK,
     ]
 }
 
@@ -177,7 +178,7 @@ pub fn plan(property: &str) -> Option<CheckPlan> {
             assumptions: vec!["R part: frames reach the router already decoded (the codec is exercised by C05/C06 and by the N part)"],
             real: R_REAL.to_vec(),
             stubbed: R_STUB.to_vec(),
-            items: vec![PlanItem { family: &rsim::reqrep::RR_FRAMES, quick: 100_000, thorough: 3_000_000 }, PlanItem { family: &rsim::reqrep::RR_REPLIERS, quick: 60_000, thorough: 1_500_000 }, PlanItem { family: &rsim::reqrep::RR_FRAMES_REBIND, quick: 40_000, thorough: 1_000_000 }, PlanItem { family: &nsim::frames::HOSTILE_FRAMES, quick: 300, thorough: 15_000 }, PlanItem { family: &nsim::hostile_server::HOSTILE_SERVER, quick: 200, thorough: 10_000 }, PlanItem { family: &nsim::regrace::REG_RACE, quick: 200, thorough: 8_000 }],
+            items: vec![PlanItem { family: &rsim::reqrep::RR_FRAMES, quick: 100_000, thorough: 3_000_000 }, PlanItem { family: &rsim::reqrep::RR_REPLIERS, quick: 60_000, thorough: 1_500_000 }, PlanItem { family: &rsim::reqrep::RR_FRAMES_REBIND, quick: 40_000, thorough: 1_000_000 }, PlanItem { family: &nsim::frames::HOSTILE_FRAMES, quick: 300, thorough: 15_000 }, PlanItem { family: &nsim::hostile_server::HOSTILE_SERVER, quick: 200, thorough: 10_000 }, PlanItem { family: &nsim::regrace::REG_RACE, quick: 200, thorough: 8_000 }, PlanItem { family: &nsim::rrbulk::BULK, quick: 48, thorough: 1_600 }],
         }),
         "C05" => Some(CheckPlan {
             property: "C05",
@@ -213,7 +214,7 @@ pub fn plan(property: &str) -> Option<CheckPlan> {
             assumptions: vec!["a call whose reply was scripted well inside the timeout must succeed only on a loss-free network; otherwise a timeout is accepted", "the timeout error must come no earlier than the timeout and no later than timeout + 1 s after the call was issued (virtual clock)", "runs with a lost connection are inconclusive"],
             real: N_REAL.to_vec(),
             stubbed: N_STUB.to_vec(),
-            items: vec![PlanItem { family: &nsim::reqrep_e2e::REQREP_E2E, quick: 500, thorough: 30_000 }, PlanItem { family: &nsim::chaos::CHAOS, quick: 150, thorough: 6_000 }],
+            items: vec![PlanItem { family: &nsim::reqrep_e2e::REQREP_E2E, quick: 500, thorough: 30_000 }, PlanItem { family: &nsim::chaos::CHAOS, quick: 150, thorough: 6_000 }, PlanItem { family: &nsim::rrbulk::BULK, quick: 48, thorough: 1_600 }],
         }),
         "C07" => Some(CheckPlan {
             property: "C07",
